@@ -56,3 +56,48 @@ Example C08_nonvacuous :
                   OAppend 7 (mkFrame 0 0 [97] None None (Some (Head 1)))] (a_empty 0) in
   map f_id (a_live a) = [5; 6; 7] /\ map f_id (a_live (a_drain a)) = [6; 7].
 Proof. vm_compute. split; reflexivity. Qed.
+
+(* ---- the full statement over histories ----
+   [wf_run]: the clock never goes back; appended/imported ids are fresh w.r.t. the live frames
+   and w.r.t. queued Remove tasks (scru128 never repeats an id: SpecP2.wfh_run_wf). *)
+From XS Require Import Proofs.SpecP2.
+
+(* A frame stops being live only because (1) it was explicitly removed, or (2) its own time:N
+   TTL had elapsed, or (3) it was outside the K newest frames of its own (context, topic) at
+   some moment after a head:K frame was appended to that topic. *)
+Theorem C08_retention : forall now ops o f,
+  wf_run (ops ++ [o]) (a_empty now) ->
+  lost (after0 now ops) (after0 now (ops ++ [o])) f ->
+  (o = ORemove (f_id f)) \/
+  (expired (a_now (after0 now ops)) f = true /\ (o = OGcStep \/ o = ODrain)) \/
+  ((o = OGcStep \/ o = ODrain) /\
+   exists k,
+     (exists pre i f0 post g a',
+        ops = pre ++ OAppend i f0 :: post /\
+        a_append (after0 now pre) i f0 = (Ok g, a') /\
+        f_ctx g = f_ctx f /\ f_topic g = f_topic f /\ f_ttl g = Some (Head k)) /\
+     exists l', sorted l' /\ In f l' /\
+       ~ In f (firstn (N.to_nat k) (rev (filter (same_topic (f_ctx f) (f_topic f)) l')))).
+Proof. exact retention. Qed.
+Print Assumptions C08_retention.
+
+(* a frame without a time TTL, in a topic that never sees a head TTL, never removed, is never lost *)
+Theorem C08_forever_safe : forall now pre post f,
+  wf_run (pre ++ post) (a_empty now) ->
+  In f (a_live (after0 now pre)) ->
+  (forall ms, f_ttl f <> Some (Time ms)) ->
+  ~ In (ORemove (f_id f)) post ->
+  (forall p i f0 q g a' k, pre ++ post = p ++ OAppend i f0 :: q ->
+     a_append (after0 now p) i f0 = (Ok g, a') ->
+     f_ctx g = f_ctx f -> f_topic g = f_topic f -> f_ttl g <> Some (Head k)) ->
+  In f (a_live (after0 now (pre ++ post))).
+Proof. exact forever_safe. Qed.
+Print Assumptions C08_forever_safe.
+
+(* the hypothesis is natural: it follows from "no id is ever handed out twice" *)
+Theorem C08_wf_from_unique_ids : forall now ops, wfh_run [] ops (a_empty now) -> wf_run ops (a_empty now).
+Proof. exact wfh_run_wf. Qed.
+Print Assumptions C08_wf_from_unique_ids.
+
+(* and it is needed: with id reuse a stale Remove task collects an innocent frame *)
+Check retention_needs_queue_freshness.
